@@ -107,3 +107,46 @@ Print Assumptions C14_refill_length.
 Print Assumptions C14_refill_emits_then_advances.
 Print Assumptions C14_refill4_emits_then_advances.
 Print Assumptions C14_wf_example.
+
+(** audit C14-F1 (work package audit-followups): "x every backend" - C14 composed with C03. On each
+    of the six back-end names [b], in each build profile [p], [refill_wide] returns the bytes of four
+    [refill_narrow] calls (each of which may run its rounds on [b1] (dispatch!) and the rest on [b2]
+    (dispatch_light128!)) and the same final store; and the same under the selection, in every
+    configuration with SSE2 detected. *)
+From CC Require Model.PpvSoft Model.Dispatch Model.MachineFull Proofs.MachineFullReal Proofs.FollowupsSmall.
+
+Theorem C14_refill4_eq_4_refills_every_backend :
+  forall (p : PpvSoft.profile) (b b1 b2 : Dispatch.backend) (k : nat) (s : MachineFull.cstore),
+    MachineFull.cstore_ok s ->
+    MachineFull.xm_refill_wide (MachineFullReal.real_xinst p b) k s =
+    (let '(o0, s1) := MachineFull.x_refill_narrow (MachineFullReal.real_xinst p b1) (MachineFullReal.real_xinst p b2) k s in
+     let '(o1, s2) := MachineFull.x_refill_narrow (MachineFullReal.real_xinst p b1) (MachineFullReal.real_xinst p b2) k s1 in
+     let '(o2, s3) := MachineFull.x_refill_narrow (MachineFullReal.real_xinst p b1) (MachineFullReal.real_xinst p b2) k s2 in
+     let '(o3, s4) := MachineFull.x_refill_narrow (MachineFullReal.real_xinst p b1) (MachineFullReal.real_xinst p b2) k s3 in
+     (o0 ++ o1 ++ o2 ++ o3, s4)).
+Proof. exact FollowupsSmall.F_C14.refill_wide_eq_four_narrow_every_backend. Qed.
+
+Theorem C14_refill4_eq_4_refills_every_config :
+  forall (c : MachineFullReal.xconfig) (k : nat) (s : MachineFull.cstore),
+    Dispatch.f_sse2 (MachineFullReal.xcpu c) = true -> MachineFull.cstore_ok s ->
+    MachineFullReal.on_x Dispatch.MDispatch (fun m => MachineFull.xm_refill_wide m k) c s =
+    match MachineFullReal.refill_narrow_on k c s with
+    | Some (o0, s1) =>
+      match MachineFullReal.refill_narrow_on k c s1 with
+      | Some (o1, s2) =>
+        match MachineFullReal.refill_narrow_on k c s2 with
+        | Some (o2, s3) =>
+          match MachineFullReal.refill_narrow_on k c s3 with
+          | Some (o3, s4) => Some (o0 ++ o1 ++ o2 ++ o3, s4)
+          | None => None
+          end
+        | None => None
+        end
+      | None => None
+      end
+    | None => None
+    end.
+Proof. exact FollowupsSmall.F_C14.refill_wide_eq_four_narrow_every_config. Qed.
+
+Print Assumptions C14_refill4_eq_4_refills_every_backend.
+Print Assumptions C14_refill4_eq_4_refills_every_config.
